@@ -1,5 +1,8 @@
 import XmpProofs.LinFlow
 import XmpProofs.LinFlowTerm
+import XmpProofs.LinFlowSim
+import XmpProofs.LinFlowSimChk
+import XmpProofs.LinFlowSeqs
 /-!
 # C18 — the reported duration is exact for modules with linear flow
 
@@ -9,20 +12,7 @@ the per-tick machine of `xmp_play_frame`: src/player.c, src/effects.c), two
 independent interpreters of the vocabulary {speed, tempo, pattern delay, jump}.
 Time is exact (unit `1/L` ms, `L = lcm(1..255)`).
 
-## Full statements (goal)
-
-```
-C18_scan_eq_play : ∀ (m : LinMod), WF m → ∀ k < (scanSequences m).seqs.length,
-  let sc := scanSequences m; let r := (sc.seqs.getD k default).res; let e := sc.env m k
-  ∃ n, ∀ fuel ≥ n,
-    rowTrace (e.run fuel) = r.trace.map posOf                      -- same rows, same order
-  ∧ ticks (e.run fuel) = r.durX                                     -- Σ frame_time = duration before truncation
-  ∧ (∀ first entries of an order o: Σ frame_time before = (sc.info.getD o {}).timeX)
-  ∧ the frame after the last one has loop_count = 1                 -- C18_loop_count
-```
-(`C18_scan_terminates` is proved in full, see below.)
-
-## What is proved here
+## What is proved here (the full statement is `C18_scan_eq_play`, last in the list)
 
 * `C18_tick_exact` — the time unit is exact for every tempo 1..255.
 * `C18_row_accounting` — the scan's bookkeeping (`row_count`, `frame_count`, `time` with its
@@ -44,15 +34,50 @@ C18_scan_eq_play : ∀ (m : LinMod), WF m → ∀ k < (scanSequences m).seqs.len
   scan's visit count `num`, one less per entry) is exhausted; frames that do not start a row
   never change it.
 
-## What is missing for the full statements
+* `C18_order_step` — **the order transition** (end of pattern / jump row → next order): from any
+  `nord`, the head of the scan's `while (42)` (skipping invalid orders and `0xfe` markers, the `0xff`
+  end marker, wrap to `mod->rst` or to the entry point, never leaving through the
+  `orders_since_last_valid` sanity exit) arrives at the order-processing step of the same playable
+  order that the player's `next_order` returns.
+* `C18_pattern_step` — one whole pattern incl. **the jump row** and the last row: scan (`scanRows`)
+  and player agree on the row records and hand the same target to the order loop / `next_order`.
+* `C18_scan_eq_play_seq` — **the cross-order simulation of one sequence** (one `scan_module` call):
+  under `SeqHyp` (module class `ModWF`, the entry point leads through skipped orders to a playable
+  order, `sequence_control` sane, scan accepted, the player environment reads this scan's results),
+  `Play.run` renders exactly the rows of the scan's trace — same positions, speed, tempo, pattern
+  delay and **exact start time of every row** — its Σ frame_time is the scan's exact duration
+  (`C18_duration_within_ms`: the reported `int` duration is within 1 ms < 1 tick of it), and it stops
+  exactly at the first re-entered row.
+* `C18_order_start_time` — every frame's `time` is the running Σ frame_time, and `xxo_info[o].time` of
+  every order first entered by this scan is exactly (before the `(int)` truncation) the Σ frame_time of
+  the frames rendered before the first tick of that order.
+* `C18_loop_count` — the loop counter is 0 on every frame of that run and increments on the next
+  frame, which is the first tick of the scan's end point `(endOrd, 0)`; no row is played twice before;
+  the end point is a row already played (`num = 1`) or — secondary sequences only — an order that
+  belongs to another sequence (`num = 0`).
 
-The composition across *orders*: `next_order` (skip of invalid orders / markers, wrap with
-restart / entry-point logic, `sequence_control` lookups) against the scan's `while (42)` head
-(`restartOrd`, foreign-order break, `scan_cnt[ord][0]` break), the jump row (`pbreak`/`jump`
-vs `ord2`), and the identification of the scan's end point with the first re-entered row (needs the
-invariant `scan_cnt = multiplicity in trace`).
-These parts are covered on every run by the correspondence only (the driver also evaluates
-`rowTrace (Play.run) = Scan trace` on every generated module).
+* `C18_scan_eq_play` — **the full statement over `libxmp_scan_sequences`**: for every module of the
+  class `ModWF` and *every* sequence `k` the scan finds (main and secondary, with the chain-number reuse
+  after rejected scans), `SeqHyp` holds for the player environment built from the final
+  `sequence_control` / `xxo_info` (`scanSequences_seqHyp`: an accepted scan starts at a playable order;
+  later scans leave `sequence_control[rst]` and the recorded `xxo_info` entries alone; the final
+  clean-up of `sequence_control` does not touch accepted chains), hence all of the above: row records,
+  exact duration and its `int` floor, loop counter, and `xxo_info[o].time` = Σ frame_time before the
+  first tick of every order entered.
+
+## Scope
+
+`ModWF` (decidable: `modWFb`; evaluated by the driver on every generated module as part of `seqHypB`):
+patterns non-empty, speed parameters ≥ 1, tempo parameters ≥ 20, initial speed ≥ 1 / tempo ≥ 20, at most
+256 orders, restart position inside the order list; in marker formats (S3M / IT) pattern numbers 0xfe /
+0xff are never real patterns and an end marker in the order list excludes a restart position — with a
+restart position the model's `next_order` and the scan restart at different orders when an end marker
+lies below a secondary entry point; no core loader produces that combination.
+Tempos above 255 are allowed by `ModWF` but lie outside the property's vocabulary: there the model's
+`tick` is a floor (both interpreters use the same one, so the theorems hold over the model), and the
+model is tied to the C only for tempos 32..255.
+The model is tied to the C by the correspondence only (sampled); the driver also evaluates `modWFb`,
+`seqHypB` and `rowRecs (Play.run) = Scan trace` on every module / sequence generated.
 -/
 namespace Xmp.LinFlow
 
@@ -190,5 +215,306 @@ theorem C18_loop_count_partial (e : PlayEnv) (s : PlaySt) :
     · simp [h1]
   · intro h
     simp [PlayEnv.render, h]
+
+/-! ## across orders -/
+
+/-- **The order transition.**  The scan state `st` stands at the top of the `while (42)` after a
+pattern (`orders_since_last_valid = 0`) and is about to do `++ord` to `nord` (the order after the last
+row, or a jump target — anything).  Then the loop head runs through skipped orders, possibly the end
+marker and the wrap to `mod->rst` / the entry point, and arrives — never through the sanity exit or
+the end-marker exit — at the processing of a playable order `o` (`procValid`), having changed only
+`orders_since_last_valid` and the `sequence_control` entries of non-playable orders; and the player's
+`next_order` from the same `nord` returns the same `o`, provided its `sequence_control[rst]` lookup
+agrees with the scan's. -/
+theorem C18_order_step (m : LinMod) (ep chain o1 : Nat) (si : SeqInfo) (ctl : List Nat) (hw : ModWF m)
+    (hep : ep < m.len) (hstart : SkipRange m ep o1) (ho1 : isPlay m o1) (hepo1 : ep ≤ o1)
+    (fuel nord : Nat) (st : ScanSt) (hosv : st.osv = 0)
+    (hne : scanOrders m ep chain fuel nord st ≠ .noFuel)
+    (hsi : si.ep = ep)
+    (hU : (isPlay m m.rst ∧ st.ctl.getD m.rst 0xff = chain) ↔ (isPlay m m.rst ∧ ctl.getD m.rst 0xff = si.seq))
+    (hUlow : ∀ x, isEndMark m x → x < ep → ¬ (isPlay m m.rst ∧ st.ctl.getD m.rst 0xff = chain)) :
+    ∃ o fuel' k c', isPlay m o ∧ fuel' < fuel ∧ CtlKeep m ep chain st.ctl c' ∧
+      scanOrders m ep chain fuel nord st = procValid m ep chain fuel' o { st with osv := k, ctl := c' } ∧
+      nextOrder m si ctl (orderFuel m) nord = some o := by
+  obtain ⟨o, fuel', k, c', h1, h2, h3, h4, h5⟩ := scan_head m ep chain o1 hw hep hstart ho1 hepo1 fuel nord st hosv hne
+  exact ⟨o, fuel', k, c', h1, h2, h3, h4,
+    play_target m si ctl o1 _ hw (by rw [hsi]; exact hep) (by rw [hsi]; exact hstart) ho1 (by rw [hsi]; exact hepo1)
+      hU (by rw [hsi]; exact hUlow) nord o h5⟩
+
+/-! instance (needs `exM3`, defined below): see `exOrderStep` after the definition of `exM3`. -/
+
+/-- **One pattern, incl. the jump row.**  `pre` is the jump-free part of the pattern at order `ord`,
+`last` its first jump row or its last row.  Scan (all rows unvisited) and player (at the first tick of
+row 0) produce the same row records, spend the same exact time, and both continue with the order
+`nordAfter ord last` (`ord + 1`, or the jump target). -/
+theorem C18_pattern_step (e : PlayEnv) (ord : Nat) (pre : List Fx) (last : Fx) (post : List Fx) (st : ScanSt) (p : PlaySt)
+    (hrows : e.m.rowsOf (e.m.patOf ord) = pre ++ last :: post)
+    (hpre : ∀ fx ∈ pre, fx.isJump = false ∧ fx.WF) (hlw : last.WF) (hlast : last.isJump = true ∨ post = [])
+    (hfresh : ∀ r, cntAt st.cnt ord r = 0) (hb : 20 ≤ st.bpm) (hlen : ord < st.cnt.length)
+    (hrl : pre.length + 1 ≤ (st.cnt.getD ord []).length)
+    (hend : ord = e.si.endOrd → e.si.endRow < pre.length + 1 → p.endPoint ≠ 0)
+    (ho : p.ord = ord) (hr : p.row = 0) (hf : p.frame = 0) (hd : p.delay = 0) (hp : p.pbreak = false)
+    (hj : p.jump = none) (hl : p.loopCount = 0) (hs : 1 ≤ p.speed)
+    (hsp : p.speed = st.speed) (hbp : p.bpm = st.bpm) (ht : p.time = st.rowStart) :
+    ∃ st' F sP,
+      scanRows ord (e.m.rowsOf (e.m.patOf ord)) 0 st = .done st' (ord2After last) ∧
+      e.runN F.length p = (e.enter sP ((ord2After last).getD (ord + 1))).map (fun p' => (F, p')) ∧
+      st'.trace = (rowRecs F).reverse ++ st.trace ∧ ticks F = st'.rowStart - st.rowStart ∧
+      sP.speed = st'.speed ∧ sP.bpm = st'.bpm ∧ sP.time = st'.rowStart ∧ sP.loopCount = 0 := by
+  obtain ⟨st', h1, hd1⟩ := scan_pattern ord pre last post 0 st hpre hlw hlast (fun r _ => hfresh r) hb hlen (by omega)
+  obtain ⟨F, sP, hrun, hrec, htk, b1, b2, b3, b4, b5, b6, b7, b8⟩ :=
+    play_pattern e ord pre last post 0 p (by rw [hrows]; rfl) hpre hlw hlast
+      (fun h1 _ h3 => hend h1 (by omega)) ho hr hf hd hp hj hl hs
+  refine ⟨st', F, sP, by rw [hrows]; exact h1, by rw [← nordAfter_eq]; exact hrun, ?_, ?_, ?_, ?_, ?_, b4⟩
+  · rw [hd1.recs, hrec, hsp, hbp, ht]
+  · rw [htk, hd1.rowStart, hsp, hbp]; omega
+  · rw [b5, hd1.speed, hsp]
+  · rw [b6, hd1.bpm, hbp]
+  · rw [b7, hd1.rowStart, hsp, hbp, ht]
+
+/-- instance: the four-row pattern of `exM` (speed change, pattern delay, tempo change, empty last row),
+scan and player at its first row -/
+example := C18_pattern_step exE 0 [.speed 3, .delay 2, .tempo 150] .none [] exSt exP rfl
+  (by intro fx h; simp at h; rcases h with h | h | h <;> subst h <;> simp [Fx.isJump, Fx.WF])
+  (by simp [Fx.WF]) (Or.inr rfl) (fun r => exFresh r (Nat.zero_le _)) (by simp [exSt]) (by simp [exSt])
+  (by show 3 + 1 ≤ 4; omega) (by intro _ _; show (1 : Int) ≠ 0; decide)
+  rfl rfl rfl rfl rfl rfl rfl (by simp [exP]) rfl rfl (by simp [exP, exSt, ScanSt.rowStart])
+
+/-- **Cross-order simulation of one sequence** (`scan_module(ep, chain)` against `Play.run`). -/
+theorem C18_scan_eq_play_seq (m : LinMod) (ep chain : Nat) (ctl0 : List Nat) (info0 : List OrdInfo) (e : PlayEnv)
+    (o1 : Nat) (H : SeqHyp m ep chain ctl0 info0 e o1) :
+    ∃ F, (∀ fuel, F.length + 1 ≤ fuel → e.run fuel = F) ∧
+      -- same rows: position, speed, tempo, pattern delay, exact start time of every row
+      rowRecs F = (scanModule m ep chain ctl0 info0).trace ∧
+      rowTrace F = (scanModule m ep chain ctl0 info0).trace.map posOf ∧
+      -- Σ frame_time = the duration before the `(int)` truncation
+      ticks F = (scanModule m ep chain ctl0 info0).durX := by
+  obtain ⟨F, s0, pF, _, _, h3, _, h4, h5, _⟩ := sim_sequence m ep chain ctl0 info0 e o1 H
+  exact ⟨F, h3, h4, by rw [rowTrace_eq_rowRecs, h4], h5⟩
+
+/-! non-trivial instance of `SeqHyp`: three orders — pattern 0 (speed change, pattern delay), an invalid
+order (skipped by both interpreters), pattern 1 whose second row jumps back to order 0 (its third row is
+never played); main sequence, fresh `sequence_control` / `xxo_info`; the player environment holds what
+the scan of this module computes.  The hypotheses are checked by the decidable `seqHypB`. -/
+def exM2 : LinMod :=
+  { xxo := [0, 5, 1], pats := [[.speed 3, .delay 2], [.tempo 150, .jump 0, .none]], rst := 0, spd := 6, bpm := 125,
+    marker := false }
+def exE2 : PlayEnv :=
+  { m := exM2, si := { seq := 0, ep := 0, endOrd := 0, endRow := 0, num := 1 },
+    ctl := [0, 0, 0], info := [{ time := 0, speed := 6, bpm := 125 }] }
+
+theorem exSeqHyp : ∃ o1, SeqHyp exM2 0 0 (List.replicate 256 0xff) (List.replicate 256 {}) exE2 o1 :=
+  seqHypB_sound exE2 0 0 (List.replicate 256 0xff) (List.replicate 256 {}) (by decide +kernel)
+
+example : ∃ F, (∀ fuel, F.length + 1 ≤ fuel → exE2.run fuel = F) ∧
+    rowTrace F = [(0, 0), (0, 1), (2, 0), (2, 1)] := by
+  obtain ⟨o1, H⟩ := exSeqHyp
+  obtain ⟨F, h1, _, h3, _⟩ := C18_scan_eq_play_seq exM2 0 0 _ _ exE2 o1 H
+  refine ⟨F, h1, ?_⟩
+  rw [h3]
+  decide +kernel
+
+/-- a secondary sequence of an S3M-style module: order list `[0, 0xfe, 1, 0xff, 0]`, pattern 0 jumps to
+itself (sequence 0 = order 0 alone); sequence 1 starts at the skip marker (order 1), plays pattern 1 and
+runs into the end marker, restarting at its entry point -/
+def exM3 : LinMod :=
+  { xxo := [0, 0xfe, 1, 0xff, 0], pats := [[.jump 0], [.none, .tempo 40]], rst := 0, spd := 2, bpm := 125,
+    marker := true }
+def exE3 : PlayEnv := (scanSequences exM3).env exM3 1
+
+example : ∃ o1, SeqHyp exM3 1 1 ((scanModule exM3 0 0 (List.replicate 256 0xff) (List.replicate 256 {})).ctl)
+    ((scanModule exM3 0 0 (List.replicate 256 0xff) (List.replicate 256 {})).info) exE3 o1 :=
+  seqHypB_sound exE3 1 1 _ _ (by decide +kernel)
+
+/-- **Order start times.**  In the run of one sequence every frame's `time` is the running Σ frame_time
+(`timesOK`), and for every order `o` first entered by this scan (`xxo_info[o].time` unset before it) the
+recorded `xxo_info[o].time` is — exactly before the `(int)` truncation, hence within 1 ms < 1 tick after
+it — the Σ frame_time of all frames rendered before the first tick of row 0 of `o`. -/
+theorem C18_order_start_time (m : LinMod) (ep chain : Nat) (ctl0 : List Nat) (info0 : List OrdInfo) (e : PlayEnv)
+    (o1 : Nat) (H : SeqHyp m ep chain ctl0 info0 e o1) :
+    ∃ F, (∀ fuel, F.length + 1 ≤ fuel → e.run fuel = F) ∧ timesOK 0 F ∧
+      ∀ f ∈ F, f.frame = 0 → f.row = 0 → (info0.getD f.ord {}).time < 0 → f.ord < info0.length →
+        ((scanModule m ep chain ctl0 info0).info.getD f.ord {}).timeX = f.time - tick f.bpm ∧
+        ((scanModule m ep chain ctl0 info0).info.getD f.ord {}).time = ((f.time - tick f.bpm) / L : Nat) := by
+  obtain ⟨F, s0, pF, _, _, h3, h4, h5, _, _, _, _, _, _, _, _, _, h17⟩ := sim_sequence m ep chain ctl0 info0 e o1 H
+  refine ⟨F, h3, h4, ?_⟩
+  intro f hf hfr hrow hneg hlt
+  have hmem : recOf f ∈ (scanModule m ep chain ctl0 info0).trace := by
+    rw [← h5]
+    unfold rowRecs
+    exact List.mem_map.mpr ⟨f, List.mem_filter.mpr ⟨hf, by simp [hfr]⟩, rfl⟩
+  exact h17 (recOf f) hmem hrow hneg hlt
+
+def Outcome.isNoFuel : Outcome → Bool
+  | .noFuel => true
+  | _ => false
+
+theorem Outcome.ne_noFuel (o : Outcome) (h : o.isNoFuel = false) : o ≠ .noFuel := by
+  intro hh; rw [hh] at h; cases h
+
+/-- the scan state of sequence 1 of `exM3` after its pattern at order 2: about to do `++ord` to 3, the end
+marker; the loop head wraps to the entry point (order 1, a skip marker) and arrives at order 2 again -/
+def exSt3 : ScanSt :=
+  { speed := 2, bpm := 40, cnt := [[1], [0], [1, 1], [0], [0]], ctl := [0, 1, 1, 0xff, 0xff], info := [] }
+
+/-- instance of `C18_order_step`: end marker, wrap to the entry point, skip marker, playable order -/
+theorem exOrderStep : ∃ o, isPlay exM3 o ∧
+    nextOrder exM3 { seq := 1, ep := 1, endOrd := 2, endRow := 0, num := 1 } exSt3.ctl (orderFuel exM3) 3 = some o := by
+  obtain ⟨o, _, _, _, h1, _, _, _, h5⟩ := C18_order_step exM3 1 1 2
+    { seq := 1, ep := 1, endOrd := 2, endRow := 0, num := 1 } exSt3.ctl (modWFb_sound exM3 (by decide)) (by decide)
+    (by intro o h1 h2; have : o = 1 := by omega
+        subst this; decide)
+    (by decide) (by decide) 20 3 exSt3 rfl (Outcome.ne_noFuel _ (by decide +kernel)) rfl Iff.rfl
+    (by intro x hx hlt; have : x = 0 := by omega
+        subst this; exact absurd hx (by decide))
+  exact ⟨o, h1, h5⟩
+
+/-- the reported duration (ms, `int`) is the rendered time rounded down: within 1 ms — less than one
+tick at any tempo ≤ 255 — of Σ frame_time -/
+theorem C18_duration_within_ms (m : LinMod) (ep chain : Nat) (ctl0 : List Nat) (info0 : List OrdInfo) (e : PlayEnv)
+    (o1 : Nat) (H : SeqHyp m ep chain ctl0 info0 e o1) :
+    ∃ F, (∀ fuel, F.length + 1 ≤ fuel → e.run fuel = F) ∧
+      (scanModule m ep chain ctl0 info0).ret = ((ticks F / L : Nat) : Int) ∧
+      (ticks F / L) * L ≤ ticks F ∧ ticks F < (ticks F / L + 1) * L ∧ L < tick 255 := by
+  obtain ⟨stF, oF, rS, hscan, hav, r1, r2, r3, r4, r5, r6, r7⟩ := scanModule_accepted m ep chain ctl0 info0 H.acc
+  obtain ⟨F, h1, _, _, h4⟩ := C18_scan_eq_play_seq m ep chain ctl0 info0 e o1 H
+  have hLpos : 0 < L := by decide +kernel
+  refine ⟨F, h1, ?_, Nat.div_mul_le_self _ _, ?_, by decide +kernel⟩
+  · rw [h4]
+    have : (scanModule m ep chain ctl0 info0).ret = ((toMs (scanModule m ep chain ctl0 info0).durX : Nat) : Int) := by
+      unfold scanModule
+      simp only []
+      have hinit : ({ speed := m.spd, bpm := m.bpm, cnt := initCnt m, ctl := ctl0, info := info0 } : ScanSt) =
+          scanInit m ctl0 info0 := rfl
+      rw [hinit, hscan]
+      simp only [hav, Bool.not_true, Bool.false_eq_true, if_false]
+    rw [this]; rfl
+  · have := Nat.lt_div_mul_add (a := ticks F) hLpos
+    rw [Nat.add_mul, Nat.one_mul]; omega
+
+example : ∃ F, (∀ fuel, F.length + 1 ≤ fuel → exE2.run fuel = F) ∧ timesOK 0 F := by
+  obtain ⟨o1, H⟩ := exSeqHyp
+  obtain ⟨F, h1, h2, _⟩ := C18_order_start_time exM2 0 0 _ _ exE2 o1 H
+  exact ⟨F, h1, h2⟩
+
+example : ∃ F, (∀ fuel, F.length + 1 ≤ fuel → exE2.run fuel = F) ∧ (ticks F / L) * L ≤ ticks F := by
+  obtain ⟨o1, H⟩ := exSeqHyp
+  obtain ⟨F, h1, _, h3, _⟩ := C18_duration_within_ms exM2 0 0 _ _ exE2 o1 H
+  exact ⟨F, h1, h3⟩
+
+/-- `seqHypB` (the Boolean the driver evaluates on every sequence of every generated module) is a sound
+test for the hypotheses: the simulation theorem in checked form. -/
+theorem C18_scan_eq_play_checked (e : PlayEnv) (ep chain : Nat) (ctl0 : List Nat) (info0 : List OrdInfo)
+    (h : seqHypB e ep chain ctl0 info0 = true) :
+    ∃ F, (∀ fuel, F.length + 1 ≤ fuel → e.run fuel = F) ∧
+      rowRecs F = (scanModule e.m ep chain ctl0 info0).trace ∧
+      ticks F = (scanModule e.m ep chain ctl0 info0).durX ∧
+      (scanModule e.m ep chain ctl0 info0).ret = ((ticks F / L : Nat) : Int) := by
+  obtain ⟨o1, H⟩ := seqHypB_sound e ep chain ctl0 info0 h
+  obtain ⟨F, h1, h2, _, h4⟩ := C18_scan_eq_play_seq e.m ep chain ctl0 info0 e o1 H
+  obtain ⟨F', g1, g2, _⟩ := C18_duration_within_ms e.m ep chain ctl0 info0 e o1 H
+  have : F' = F := by
+    have a := g1 (F.length + F'.length + 1) (by omega)
+    have b := h1 (F.length + F'.length + 1) (by omega)
+    exact a.symm.trans b
+  rw [this] at g2
+  exact ⟨F, h1, h2, h4, g2⟩
+
+example := C18_scan_eq_play_checked exE2 0 0 (List.replicate 256 0xff) (List.replicate 256 {}) (by decide +kernel)
+
+/-- **The loop counter increments exactly when playback re-enters a row already played** (for a
+secondary sequence: or enters an order that belongs to another sequence). -/
+theorem C18_loop_count (m : LinMod) (ep chain : Nat) (ctl0 : List Nat) (info0 : List OrdInfo) (e : PlayEnv)
+    (o1 : Nat) (H : SeqHyp m ep chain ctl0 info0 e o1) :
+    ∃ F s0 pF, e.start = some s0 ∧ (∀ fuel, F.length + 1 ≤ fuel → e.run fuel = F) ∧
+      -- `pF` is the state after the sequencing that follows the last frame of `F`
+      e.runN F.length s0 = some (F, pF) ∧
+      -- not before: the counter is 0 on every frame, and no row is entered twice
+      (∀ f ∈ F, f.loopCount = 0) ∧ (rowTrace F).Nodup ∧
+      -- then: the next frame is the first tick of the scan's end point and increments the counter
+      pF.frame = 0 ∧ (pF.ord, pF.row) = ((scanModule m ep chain ctl0 info0).endOrd, 0) ∧
+      (scanModule m ep chain ctl0 info0).endRow = 0 ∧ (e.render pF).loopCount = 1 ∧
+      -- that row was played before, or the order is another sequence's
+      ((pF.ord, pF.row) ∈ rowTrace F ∧ (scanModule m ep chain ctl0 info0).num = 1 ∨
+       (pF.ord, pF.row) ∉ rowTrace F ∧ (scanModule m ep chain ctl0 info0).num = 0 ∧ ep ≠ 0 ∧
+         ctl0.getD pF.ord 0xff ≠ 0xff) := by
+  obtain ⟨F, s0, pF, h1, h2, h3, _, _, _, h6, h7, h8, h9, h10, h11, h12, h13, _⟩ := sim_sequence m ep chain ctl0 info0 e o1 H
+  have hpos : (pF.ord, pF.row) = ((scanModule m ep chain ctl0 info0).endOrd, 0) := by rw [h7, h8, h9]
+  refine ⟨F, s0, pF, h1, h3, h2, h6, h12, h10, hpos, h9, h11, ?_⟩
+  rw [hpos]
+  rcases h13 with h | h
+  · exact Or.inl h
+  · exact Or.inr ⟨h.1, h.2.1, h.2.2.1, by rw [h7]; exact h.2.2.2⟩
+
+/-! ## all sequences of `libxmp_scan_sequences` -/
+
+/-- **C18, the scan against the player, for every sequence of a module.**  For every module of the
+class `ModWF` that `libxmp_scan_sequences` accepts and every sequence `k` it finds, with the player
+environment `sc.env m k` built from the final `sequence_control` / `xxo_info` (as `xmp_start_player` /
+`xmp_set_position` see them): `Play.run` from the entry point renders exactly the rows of that sequence's
+scan trace (positions, speed, tempo, pattern delay, exact start time of every row), Σ frame_time equals the
+exact duration and the reported `int` duration is its floor in ms (< 1 tick away); the loop counter is 0
+on every one of these frames, no row is played twice, and the next frame — the first tick of the
+scan's end point, row 0 of `endOrd` — increments it; that row was played before, or (secondary sequences
+only) the order belongs to another sequence. -/
+theorem C18_scan_eq_play (m : LinMod) (hw : ModWF m) (hok : (scanSequences m).ok = true) (k : Nat)
+    (hk : k < (scanSequences m).seqs.length) :
+    ∃ F s0 pF,
+      ((scanSequences m).env m k).start = some s0 ∧
+      (∀ fuel, F.length + 1 ≤ fuel → ((scanSequences m).env m k).run fuel = F) ∧
+      -- same rows, same exact times
+      rowRecs F = ((scanSequences m).seqs.getD k default).res.trace ∧
+      rowTrace F = ((scanSequences m).seqs.getD k default).res.trace.map posOf ∧
+      timesOK 0 F ∧
+      -- duration
+      ticks F = ((scanSequences m).seqs.getD k default).res.durX ∧
+      ((scanSequences m).seqs.getD k default).res.ret = ((ticks F / L : Nat) : Int) ∧
+      -- loop counter
+      ((scanSequences m).env m k).runN F.length s0 = some (F, pF) ∧
+      (∀ f ∈ F, f.loopCount = 0) ∧ (rowTrace F).Nodup ∧
+      pF.frame = 0 ∧ (pF.ord, pF.row) = (((scanSequences m).seqs.getD k default).res.endOrd, 0) ∧
+      ((scanSequences m).seqs.getD k default).res.endRow = 0 ∧
+      (((scanSequences m).env m k).render pF).loopCount = 1 ∧
+      ((pF.ord, pF.row) ∈ rowTrace F ∧ ((scanSequences m).seqs.getD k default).res.num = 1 ∨
+       (pF.ord, pF.row) ∉ rowTrace F ∧ ((scanSequences m).seqs.getD k default).res.num = 0 ∧
+         ((scanSequences m).seqs.getD k default).ep ≠ 0) ∧
+      -- order start times: `xxo_info[o].time` of every order entered is the Σ frame_time before its first tick
+      (∀ f ∈ F, f.frame = 0 → f.row = 0 →
+        ((scanSequences m).info.getD f.ord {}).timeX = f.time - tick f.bpm ∧
+        ((scanSequences m).info.getD f.ord {}).time = (((f.time - tick f.bpm) / L : Nat) : Int)) := by
+  obtain ⟨ctlk, infok, o1, hres, H, hinfoT⟩ := scanSequences_seqHyp m hw hok k hk
+  obtain ⟨F, s0, pF, h1, h2, h3, h4, h5, h6, h7, h8, h9, h10, h11, h12, h13, h14, _⟩ :=
+    sim_sequence m _ k ctlk infok _ o1 H
+  obtain ⟨F', g1, g2, _⟩ := C18_duration_within_ms m _ k ctlk infok _ o1 H
+  have hFF : F' = F := by
+    have a := g1 (F.length + F'.length + 1) (by omega)
+    have b := h3 (F.length + F'.length + 1) (by omega)
+    exact a.symm.trans b
+  rw [hFF] at g2
+  rw [← hres] at h5 h6 h8 h9 h10 h14 g2
+  have hpos : (pF.ord, pF.row) = (((scanSequences m).seqs.getD k default).res.endOrd, 0) := by rw [h8, h9, h10]
+  refine ⟨F, s0, pF, h1, h3, h5, by rw [rowTrace_eq_rowRecs, h5], h4, h6, g2, h2, h7, h13, h11, hpos, h10, h12, ?_, ?_⟩
+  · rw [hpos]
+    rcases h14 with h | h
+    · exact Or.inl h
+    · exact Or.inr ⟨h.1, h.2.1, h.2.2.1⟩
+  · intro f hf hfr hrow
+    have hmem : recOf f ∈ ((scanSequences m).seqs.getD k default).res.trace := by
+      rw [← h5]
+      unfold rowRecs
+      exact List.mem_map.mpr ⟨f, List.mem_filter.mpr ⟨hf, by simp [hfr]⟩, rfl⟩
+    exact hinfoT (recOf f) hmem hrow
+
+/-- instance: the S3M-style example module with its three sequences (entry points 0, 1, 4) -/
+example : ModWF exM3 ∧ (scanSequences exM3).ok = true ∧ (scanSequences exM3).seqs.length = 3 :=
+  ⟨modWFb_sound exM3 (by decide), by decide +kernel, by decide +kernel⟩
+
+example := C18_scan_eq_play exM3 (modWFb_sound exM3 (by decide)) (by decide +kernel) 1 (by decide +kernel)
+
+example : ∃ F s0 pF, exE2.start = some s0 ∧ (∀ fuel, F.length + 1 ≤ fuel → exE2.run fuel = F) ∧
+    (exE2.render pF).loopCount = 1 := by
+  obtain ⟨o1, H⟩ := exSeqHyp
+  obtain ⟨F, s0, pF, h1, h2, _, _, _, _, _, _, h9, _⟩ := C18_loop_count exM2 0 0 _ _ exE2 o1 H
+  exact ⟨F, s0, pF, h1, h2, h9⟩
 
 end Xmp.LinFlow
